@@ -303,7 +303,9 @@ func (tw *vfTwin) do(op, kind string, seid uint64, id int) ([]report.USAReport, 
 		delete(tw.gone, key)
 	}
 	if err == nil && kind == "urr" && (op == "remove" || op == "query") {
-		r, rep := tw.newReport(id, 0)
+		// the data plane may report a cause of its own with the measurement (volume threshold, none, time threshold):
+		// the UPF adds its mark (immediate / termination) and must keep the cause
+		r, rep := tw.newReport(id, []uint32{2, 0, 4}[id%3])
 		reps = append(reps, r)
 		c.Reps = append(c.Reps, rep)
 	}
@@ -1241,6 +1243,9 @@ func (x *vfExec) start(init *vfEvent) (*vfRun, error) {
 		},
 	}
 	r.srv = NewPfcpServer(cfg, r.twin)
+	// this UPF "was started" long ago: a recovery time stamp taken anew during the run differs from it by more than the
+	// one-second resolution of the IE
+	r.srv.recoveryTime = vfT0.Add(-90 * 24 * time.Hour)
 	if init.TxSeq0 != "" {
 		v, _ := strconv.ParseUint(init.TxSeq0, 10, 32)
 		r.srv.txSeq = uint32(v)
